@@ -156,6 +156,34 @@ def run_cfg(ctx, p, cfg):
         ce = h.calls(CHUNK_ENCODE)
         r.require(len(ce) == 1 and h.in_loop(ce[0].block), "encode-iterates-chunks", fn=h, detail="one Chunk::encode call inside the chunk loop")
 
+    with ctx.rule("P5", "the parser advances with every piece", cfg) as r:
+        # PatternEncoder::new collects the parser until it returns None.  If a piece can be produced without a character having
+        # been taken from the pattern, the same piece comes again and again and construction never returns (it ends when the
+        # allocator gives up): on every path to `Some(piece)` the parser's own cursor has moved - a next() on it (not on a
+        # clone), a store to it, or one of the parser's own &mut self steps
+        from rules import c09
+        f = p.fn(c09.PARSER_NEXT)
+        padt = f.d.get("impl_self_adt")
+
+        def on_cursor(e):
+            return any(x[0] == "field" and deep_strip(x[1]) in (("param", 1), ("deref", ("param", 1))) for x in walk(e)) and not any(x[0] == "call" and x[1].rsplit("::", 1)[-1] in ("clone", "cloned", "by_ref_clone") for x in walk(e))
+        moves = set()
+        for c in f.calls():
+            cal = c.callee or ""
+            if cal.rsplit("::", 1)[-1] in ("next", "nth", "advance_by", "next_if", "next_if_eq") and c.args and on_cursor(c.arg(0)):
+                moves.add(c.block)
+            elif cal in p.fns and c.args and deep_strip(c.arg(0)) == ("param", 1) and (p.fns[cal].d.get("sig") or "").split("fn(", 1)[-1].split(",")[0].split(")")[0].strip().startswith(("&mut", "&'")) \
+                    and " mut " in (p.fns[cal].d.get("sig") or "").split("fn(", 1)[-1].split(",")[0].split(")")[0] + " ":
+                moves.add(c.block)
+        for b, i, st in f.assigns():
+            if st["lhs"]["l"] == 1 and any(isinstance(e, dict) and "f" in e for e in st["lhs"]["p"]):
+                moves.add(b)
+        somes = {b for b, e in q.ret_assignments(f) if not (deep_strip(e)[0] == "agg" and deep_strip(e)[2] == "None")}
+        r.require(bool(moves) and bool(somes), "anchors", fn=f, detail="cursor moves in %d blocks, %d returns of a piece" % (len(moves), len(somes)))
+        stuck = q.skipping_paths(f, 0, moves, somes)
+        r.require(not stuck, "every-piece-consumes-input", fn=f, detail="every path to a returned piece passes a step of the parser's cursor",
+                  fail_detail="a piece is returned (bb%s) on a path on which the parser's cursor has not moved: the next call returns the same piece, and collecting the parser never ends" % sorted(stuck))
+
     with ctx.rule("P1", "panic inventory", cfg) as r:
         cone = cone_of(p)
         if common.established(c10.rule_char_counting, p):
